@@ -11,6 +11,7 @@ import (
 	"time"
 	"path/filepath"
 	"sort"
+	"strings"
 	"syscall"
 
 	"verif.local/vs"
@@ -54,6 +55,13 @@ var fsMon vs.Monitor
 func Reset() { Files = map[string][]byte{}; Writes = map[string]int{}; Log = nil }
 
 func dirOK(name string) error {
+	// limits of the real file system that a file name derived from request data can hit
+	if strings.IndexByte(name, 0) >= 0 {
+		return &os.PathError{Op: "open", Path: name, Err: syscall.EINVAL}
+	}
+	if len(filepath.Base(name)) > 255 {
+		return &os.PathError{Op: "open", Path: name, Err: syscall.ENAMETOOLONG}
+	}
 	d := filepath.Dir(name)
 	if d == "/tmp" || d == "." || d == "/" {
 		return nil
